@@ -261,20 +261,22 @@ fn blocking_case<const N: usize>(id: String, mut rng: Rng, event_idx: bool, indi
         let notified = st.borrow().log[log0..].iter().any(|(_, x)| matches!(x, crate::mtrans::TCall::Notify(_)));
         // take events (stores are diffed by the hook during the call)
         let h = hal::take_events();
-        let mut all: Vec<(u64, String)> = h.iter().map(|(s, e)| (*s, e.canon())).collect();
+        // canonical form (as in cq_queue::take_evs): platform events in order, then the net effect of
+        // the whole call on device-visible memory
+        let mut all: Vec<String> = h.iter().map(|(_, e)| e.canon()).collect();
         STORE.with(|s| {
             if let Some(x) = s.borrow_mut().as_mut() {
-                all.extend(std::mem::take(&mut x.events));
+                let _ = std::mem::take(&mut x.events);
                 for o in x.oracle.drain(..) {
                     c.fail(o);
                 }
+                all.extend(x.net_effect());
                 x.dev.fetch_idx = ctx.dev.fetch_idx;
                 x.dev.inflight = ctx.dev.inflight.clone();
                 x.resync();
             }
         });
-        all.sort_by_key(|(s, _)| *s);
-        let evs = if all.is_empty() { "-".to_string() } else { all.into_iter().map(|(_, x)| x).collect::<Vec<_>>().join(" ") };
+        let evs = if all.is_empty() { "-".to_string() } else { all.join(" ") };
         let res = match r {
             Err(_) => "panic".to_string(),
             Ok(Err(e)) => format!("err {:?}", e),
